@@ -79,6 +79,10 @@ def patch_kind(p, obj):
     return '+'.join(sorted(kinds))
 
 
+def patch_depth(p):
+    return 0 if not isinstance(p, dict) else 1 + max([patch_depth(v) for v in p.values()] or [0])
+
+
 def load_outcome(data, patches):
     LOG.clear()
     try:
@@ -208,6 +212,38 @@ def run(tier):
                           'loads after history %s gives %s, on a fresh thread %s' % (outs, short(res, 200), short(fresh, 200)),
                           {'history_outcomes': outs, 'patches': patches, 'fresh': short(fresh, 600), 'after_history': short(res, 600), 'residue': residue})
     chk.sample({'kind': 'history', 'example': 'loads(corrupt) -> loads(raising __setstate__) -> probe loads', 'verdict': 'compared with fresh-thread outcome'})
+
+    # ---- 2b. the caller keeps one patch dictionary and passes it to several calls ----------
+    def raw_outcome(d, p):
+        LOG.clear()
+        try:
+            res = ('ok', canon(rp.loads(d, p)))
+        except BaseException as e:  # noqa
+            res = ('exc:' + type(e).__name__, None)
+        LOG.clear()
+        return res
+
+    patched = [c for c in corpus if c[1]]
+    for ri in range(min(len(patched), 1500 if thorough else 300)):
+        data, patches, fresh = patched[ri] if ri < 60 else r.choice(patched)
+        first = r.choice(['same', 'same', 'failing'])
+        depth = patch_depth(patches)
+
+        def reuse():
+            mine = copy.deepcopy(patches)          # the caller's own dictionary, handed to both calls
+            if first == 'same':
+                o1 = raw_outcome(data, mine)[0]
+            else:
+                o1 = raw_outcome(r.choice([boom, boom_nested]), mine)[0]
+            return o1, raw_outcome(data, mine)
+
+        o1, res = on_fresh_thread(reuse)
+        chk.case(('reuse', ri, first, o1, depth))
+        chk.count('patch_dict_reuse_cases')
+        if res != fresh:
+            chk.violation('patch-dict-reuse-dependence:%s->%s:depth%d' % (fresh[0], res[0], min(depth, 2)),
+                          'second loads with the very same patch dictionary (first call: %s, %s) gives %s, with an equal fresh dictionary %s' % (first, o1, short(res, 200), short(fresh, 200)),
+                          {'patches': patches, 'first_call': first, 'first_outcome': o1, 'fresh': short(fresh, 600), 'second': short(res, 600)})
 
     # ---- 3. concurrent loads ----------------------------------------------------
     old = sys.getswitchinterval()
